@@ -141,6 +141,9 @@ def find_recombination(
     positions: Sequence[int],
     recombcost: Sequence[int],
 ) -> Sequence[RecombinationEvent]:
+    if len(positions) == 0:
+        # Nothing was phased (the recombination cost list has a leading 0 even then)
+        return []
     assert len(transmission_vector) == len(positions) == len(recombcost)
     assert set(components.keys()).issubset(set(positions))
     position_to_index = {pos: i for i, pos in enumerate(positions)}
